@@ -18,6 +18,7 @@ static const char *prog =
 "local function cls(msg)\n"
 "  if msg:find('invalid capture index') then return 'invalid_capture_index' .. (msg:match('%%(%d+)') or '') end\n"
 "  if msg:find('invalid use of') then return 'invalid_pct' end\n"
+"  if msg:find(\"missing '%[' after\") then return 'missing_bracket' end\n"
 "  if msg:find('malformed pattern') or msg:find('missing') then return 'malformed' end\n"
 "  if msg:find('unfinished capture') then return 'unfinished_capture' end\n"
 "  if msg:find('invalid pattern capture') then return 'invalid_pattern_capture' end\n"
